@@ -230,8 +230,14 @@ class ClassTable:
             return
         module = module_of(fn)
         for stmt in fn.body:
-            if isinstance(stmt, ast.For) and isinstance(stmt.iter, (ast.List, ast.Tuple)):
-                tags = [world.qualify(module, e) for e in stmt.iter.elts]
+            it = stmt.iter if isinstance(stmt, ast.For) else None
+            if isinstance(it, ast.Name):
+                # a module-level constant holding the tag list
+                d = module_of(it).defs.get(it.id)
+                if isinstance(d, (ast.Assign, ast.AnnAssign)) and isinstance(d.value, (ast.List, ast.Tuple)):
+                    it = d.value
+            if isinstance(stmt, ast.For) and isinstance(it, (ast.List, ast.Tuple)):
+                tags = [world.qualify(module_of(e), e) for e in it.elts]
                 if not all(t and t.startswith('lineax.is_') for t in tags):
                     continue
                 body_src = ' '.join(ast.unparse(s) for s in stmt.body)
@@ -389,6 +395,14 @@ class ClassTable:
 
     def _own(self, k: ClassInfo, name: str, depth: int = 0) -> Resolved:
         node = k.own[name]
+        if isinstance(node, ast.Assign) and isinstance(node.value, ast.Attribute) and isinstance(node.value.value, ast.Name) and depth < 4:
+            # class-level alias of another class's member, e.g. ``inverse = AbstractLazyInverseOperator.inverse``
+            q = self.world.qualify(module_of(node), node.value.value.id)
+            other = self.find(q) if q else None
+            if other is not None and other is not k:
+                r = self.resolve(other, node.value.attr)
+                if r is not None and isinstance(r.node, (ast.FunctionDef, ast.Lambda)):
+                    return Resolved(name, r.node, r.owner, k, f'alias of {other.name}.{node.value.attr}', r.is_property)
         if isinstance(node, ast.Assign) and isinstance(node.value, ast.Name) and depth < 4:
             # class-level alias, e.g. ``inverse = transpose``: the object bound in the class
             # namespace at that point, i.e. the latest earlier binding of that name in the body.
